@@ -368,7 +368,7 @@ def run_unit(unit, tier, keep=False, verbose=False):
             cmd += ['--unwindset', ','.join(uws)]
         if not unit.get('dfcc', True):
             cmd += ['--drop-unused-functions']
-        solver = unit.get('solver')
+        solver = os.environ.get('VERIF_SOLVER') or unit.get('solver')
         if tier == 'thorough' and unit.get('solver_thorough'):
             solver = unit['solver_thorough']
         if solver == 'kissat':
@@ -716,7 +716,7 @@ def check_property(pid, tier, only=None, keep=False):
         print('UNDECIDED property=%s no units' % pid)
         return 2
     known = [k for k in load_known() if k['property'] == pid]
-    nworkers = int(os.environ.get('VERIF_JOBS', '8'))
+    nworkers = int(os.environ.get('VERIF_JOBS', '16'))
     with ThreadPoolExecutor(max_workers=nworkers) as pool:
         results = list(pool.map(lambda u: run_unit(u, tier, keep=keep), units))
 
